@@ -257,8 +257,117 @@ def mk_gate():
     return Gate()
 
 
+# ------------------------------------------------------------------ K3: the alias module written for a shared core is self-consistent
+def k_alias_module(P, prior_code, code):
+    """real ExceptionsEmitter.emit (real ExceptionVisitor, real RenderContext) for a client declaring `code` into a shared core
+    whose registry already holds another client with `prior_code`; returns the text written to exception_aliases.py"""
+    ee = import_module(P.__name__ + ".emitters.exceptions_emitter")
+    inst = P.__name__.startswith("sxi_")
+    D = hook.SDict if inst else dict
+    reg = D()
+    reg["other.client"] = [prior_code]
+    store = {"content": reg, "writes": 0, "exists": True, "files": {}}
+
+    class _OsPath:
+        @staticmethod
+        def exists(p):
+            return store["exists"]
+
+        join = staticmethod(os.path.join)
+
+    class _Os:
+        path = _OsPath
+
+    class _F(_File):
+        def write(self, text):
+            store["files"]["aliases"] = text
+
+    def _open(path, mode="r"):
+        return _F(store, mode)
+
+    saved = (ee.__dict__.get("open"), ee.json, ee.os)
+    ee.__dict__["open"] = _open
+    ee.json = _Json(store)
+    ee.os = _Os
+    em = ee.ExceptionsEmitter(core_package_name="shared.core", overall_project_root="/proj")
+    em._is_shared_core = lambda core_dir, client_package_name=None: True
+    resp = P.IRResponse(status_code=hook.symint_to_str(code) if not isinstance(code, int) else str(code), description="e", content={})
+    ok = P.IRResponse(status_code="200", description="ok", content={})
+    op = P.IROperation(operation_id="op", method=P.HTTPMethod.GET, path="/x", summary=None, description=None, parameters=[], request_body=None, responses=[ok, resp], tags=[])
+    spec = P.IRSpec(title="t", version="1", schemas={}, operations=[op], servers=[])
+    try:
+        em.emit(spec, "/proj/shared/core", client_package_name="this.client")
+    finally:
+        if saved[0] is None:
+            ee.__dict__.pop("open", None)
+        else:
+            ee.__dict__["open"] = saved[0]
+        ee.json, ee.os = saved[1], saved[2]
+    return store["files"].get("aliases")
+
+
+class AliasModule(Obligation):
+    functions = ["pyopenapi_gen.emitters.exceptions_emitter:ExceptionsEmitter.emit", "pyopenapi_gen.visit.exception_visitor:ExceptionVisitor.visit",
+                 "pyopenapi_gen.emitters.exceptions_emitter:ExceptionsEmitter._generate_for_codes"]
+
+    def __init__(self):
+        self.name = "alias_module_resolves"
+        self.bounds = {"prior client's code": "symbolic int 400..599", "this client's code": "solver-chosen from %r (the document carries it as text)" % (self.CODES,)}
+
+    CODES = [400, 404, 418, 422, 429, 499, 500, 503, 520, 599]
+
+    def make_inputs(self, e):
+        return {"prior": mk_sym_int("prior", 400, 599), "code": self.CODES[e.choose(len(self.CODES), "code")]}
+
+    def run_sym(self, inp):
+        return call_catching(k_alias_module, _I(), inp["prior"], inp["code"])
+
+    def run_real(self, inp):
+        return call_catching(k_alias_module, _R(), inp["prior"], inp["code"])
+
+    def normalise(self, r):
+        return r.simp() if is_sym(r) else r
+
+    def verdict(self, inp, r):
+        import ast
+
+        from symx.core import Engine, concretize
+
+        if isinstance(r, Raised):
+            return "emit raised %s" % r.kind
+        if r is None:
+            return "exception_aliases.py was not written"
+        text = concretize(r, Engine.cur._ensure_model()) if (is_sym(r) and not r.is_concrete()) else (r.simp() if is_sym(r) else r)
+        try:
+            tree = ast.parse(text)
+        except SyntaxError as ex:
+            return "exception_aliases.py does not parse: %s" % ex
+        bound = set()
+        for node in tree.body:
+            if isinstance(node, ast.ImportFrom):
+                bound.update(a.asname or a.name for a in node.names)
+            elif isinstance(node, ast.Import):
+                bound.update((a.asname or a.name).split(".")[0] for a in node.names)
+            elif isinstance(node, ast.ClassDef):
+                for b in node.bases:
+                    if isinstance(b, ast.Name) and b.id not in bound:
+                        return "class %s derives from %s, which the module neither imports nor defines" % (node.name, b.id)
+                bound.add(node.name)
+        return None
+
+    def prop(self, inp, r):
+        return self.verdict(inp, r) is None
+
+    def describe_violation(self, inp, r):
+        return "other client declares %r, this client %r: %s" % (inp["prior"], inp["code"], self.verdict(inp, r))
+
+
+def mk_alias_module():
+    return AliasModule()
+
+
 def run(tier, rep, only=None):
-    sp = [(MOD, "mk_gate", ()), (MOD, "mk_step", (1, 1, True)), (MOD, "mk_step", (1, 1)), (MOD, "mk_step", (1, 2)), (MOD, "mk_step", (2, 1))]
+    sp = [(MOD, "mk_gate", ()), (MOD, "mk_alias_module", ()), (MOD, "mk_step", (1, 1, True)), (MOD, "mk_step", (1, 1)), (MOD, "mk_step", (1, 2)), (MOD, "mk_step", (2, 1))]
     if tier == "thorough":
         sp.append((MOD, "mk_step", (2, 2)))
         sp.append((MOD, "mk_step", (1, 3)))
@@ -285,6 +394,11 @@ def replay(path):
         r = ob.run_real(inp)
         why = ob.verdict(inp, r, ob.which)
         print("replay %s inputs=%r -> %s" % (v["obligation"], inp, "holds" if why is None else why))
+        return 0 if why is None else 1
+    if v["obligation"] == "alias_module_resolves":
+        ob = AliasModule()
+        why = ob.verdict(v["inputs"], ob.run_real(v["inputs"]))
+        print("replay %s inputs=%r -> %s" % (v["obligation"], v["inputs"], "holds" if why is None else why))
         return 0 if why is None else 1
     if v["obligation"].startswith("shared_core_gate"):
         ob = Gate()
